@@ -64,6 +64,18 @@ Theorem C05_block2_assembly_exact : forall fuel script t initial mbse rest tr r,
 Proof. exact block2_assembly_exact_lemma. Qed.
 Print Assumptions C05_block2_assembly_exact.
 
+(* 4a. The guard of Message._append_response_block is TRANSLATED from source (Gen/block_kernels.append_response_block_guard) and is an OFFSET
+       comparison: a block is appended only if NUM * size equals the number of bytes assembled so far (not merely if NUM equals the
+       rounded-down quotient — a server that grows the size exponent mid-transfer cannot get a block accepted that starts before the end of
+       the assembled bytes), its payload size fits its option and its ETag is that of the first block. *)
+Theorem C05_append_only_at_assembled_length : forall acc x n m szx acc',
+  rs_block2 x = Some (n, m, szx) -> append_response_block acc x = Ok acc' ->
+  n * bsize (Z.min szx 6) = blen (rs_payload acc) /\ etag_eqb (rs_etag x) (rs_etag acc) = true /\
+  (szx <> 7 -> if m then blen (rs_payload x) = bsize (Z.min szx 6) else blen (rs_payload x) <= bsize (Z.min szx 6)) /\
+  acc' = appended acc x (n, m, szx).
+Proof. exact append_ok. Qed.
+Print Assumptions C05_append_only_at_assembled_length.
+
 (* 4b. (defect fixed in 69c1201) a first response that names a later block — final or not — ends the request with UnexpectedBlock2,
        unless the application itself asked for a later block. *)
 Theorem C05_first_block2_number_checked : forall (S : Type) (serve : S -> request -> S * sresult) fuel s t initial mbse b,
@@ -283,3 +295,18 @@ Definition ex_bert_scf2 : scfg := {| s_policy1 := [7; 6; 3]; s_policy2 := [7]; s
                                      s_atomic := false; s_mis := None; s_bert := 1 |}.
 Example ex_bert_honest2 : honest_bert_cfg ex_bert_scf2 (Some 10) (mkbody 3000 1).
 Proof. split; try reflexivity; try (repeat constructor; lia); intros k; unfold pol; cbn [ex_bert_scf2 s_policy2 last]; destruct (Z.to_nat k) as [|[|?]]; cbn; lia. Qed.
+(* the shape of seeded change C05b: 192 bytes received in three 64-byte blocks, then the request for block 3 is answered with a FINAL block
+   NUM 1 / SZX 3 (offset 128, 102 bytes): refused with NotImplemented — the body with bytes 128..191 doubled is never returned *)
+Definition ex_grow_block (n : Z) (m : bool) (s from to : Z) : sresult :=
+  SResp {| rs_code := 69; rs_block1 := None; rs_block2 := Some (n, m, s); rs_etag := Some 4; rs_payload := bslice (mkbody 230 9) from to; rs_maxexp := 6; rs_observe := false |}.
+Example ex_block2_size_grows_refused :
+  let '(tr, o) := run_script [ex_grow_block 0 true 2 0 64; ex_grow_block 1 true 2 64 128; ex_grow_block 2 true 2 128 192; ex_grow_block 1 false 3 128 230]
+                             {| c_body := []; c_mps := 1124; c_mbse := 6; c_block2 := None |} in
+  (map rq_block2 tr, o) = ([None; Some (1, false, 2); Some (2, false, 2); Some (3, false, 2)], Err NotImplementedError).
+Proof. vm_compute. reflexivity. Qed.
+(* ... while a grown block that starts exactly at the assembled length (128 bytes, NUM 1 / SZX 3) is consistent and is assembled *)
+Example ex_block2_size_grows_aligned :
+  let '(tr, o) := run_script [ex_grow_block 0 true 2 0 64; ex_grow_block 1 true 2 64 128; ex_grow_block 1 false 3 128 230]
+                             {| c_body := []; c_mps := 1124; c_mbse := 6; c_block2 := None |} in
+  match o with Done r => beqb (rs_payload r) (mkbody 230 9) | _ => false end = true.
+Proof. vm_compute. reflexivity. Qed.
